@@ -183,9 +183,11 @@ _reg("C05", c05.run, translator=("T1", "T9", "T17"), module="NirVerif.Properties
                 "of the remaining classes by the oracle.",
      level_note="Lean kernel; hand-written model of each __post_init__ over the translator-generated field table (T1); "
                 "correspondence sampling; numpy shape semantics are modelled, not verified.")
-_reg("C08", c08.run, translator=("T1", "T4", "T5"),
+_reg("C08", c08.run, translator=("T1", "T4", "T5"), module="NirVerif.Properties.C08Built",
      theorems=["NirVerif.C08.restore", "NirVerif.C08.localTyping_of_nodes", "NirVerif.C08.restoreG",
-               "NirVerif.C08.localTypingK_of_nodes", "NirVerif.C08.restore_keyed", "NirVerif.C08.restore_settled"],
+               "NirVerif.C08.localTypingK_of_nodes", "NirVerif.C08.restore_keyed", "NirVerif.C08.restore_settled",
+               "NirVerif.C08.nodeOKK_of_declares", "NirVerif.C08.built_affine_linear", "NirVerif.C08.built_elementwise",
+               "NirVerif.C08.built_neuron"],
      level_text="Kernel-checked: for every flat graph with unique names in which every node is an Input or reachable "
                 "from one, and every typing tau that is consistent edge-by-edge with the partly erased graph, infer_types "
                 "succeeds, leaves every node with exactly tau's shapes (Outputs included, none undefined) and the result "
@@ -197,7 +199,10 @@ _reg("C08", c08.run, translator=("T1", "T4", "T5"),
                 "calc_flatten_output / calculate_conv_output from the restored input shape is part of the proved step, "
                 "including the tuple-of-numpy-scalars / ndarray-tail readings of the shape values. The per-node "
                 "hypothesis states the annotated output shape in terms of the (translator-generated) shape kernels "
-                "applied to the canonical integer tuple; restore_settled adds that Output nodes mirror their input.",
+                "applied to the canonical integer tuple; restore_settled adds that Output nodes mirror their input. For the "
+                "parameterised primitives the per-node hypothesis is not assumed but derived from how nodes are built: "
+                "whatever postInit returns for Affine / Linear / Scale / Threshold / Delay / I / IF / LI / LIF meets it for "
+                "the shapes the mathematics implies (built_affine_linear, built_elementwise, built_neuron over C05).",
      level_note="Lean kernel; hand-written model of infer_types/_check_types; per-kind shape arithmetic of Conv/Flatten is "
                 "covered by C06/C07 theorems over the translator-generated kernels, its embedding in the loop body by sampling.",
      rule="Consistent graphs built forwards from Inputs (all primitives, fan-in/out, residual/recurrent/self/parallel "
